@@ -5,6 +5,7 @@ from .. import catalogue, shapes, sym
 from ..shapes import F, Catalogue, EnumDef, Shape, Bounds
 from ..spec import specjson as sj, specmsg as sm
 
+WARMUP = True  # a concrete first use of the harness before each path (vf/explore.py: WarmEnv)
 PROPERTY = "C20"
 FILES = ["betterproto/enum.py", "betterproto/__init__.py"]
 NUMBERS = [0, 1, -1, 5, (1 << 31) - 1, -(1 << 31)]
